@@ -384,6 +384,58 @@ func ruleMathMap(c *Ctx) {
 		})
 		c.check(hasMod && hasAdj, R, "luaModulo:floor-adjust", p.pos(fn.Pos()), "math.Mod followed by the sign adjustment (a - floor(a/b)*b)", "luaModulo lost its sign adjustment: % now truncates like C fmod")
 	}
+	ruleModuloSign(c)
+}
+
+// ruleModuloSign: the sign test that decides the floor adjustment compares the remainder and the
+// divisor with zero directly; deriving it from arithmetic on them (a product or quotient) underflows
+// to zero / overflows for tiny or huge operands and silently skips the adjustment.
+func ruleModuloSign(c *Ctx) {
+	const R = "R15-mathmap"
+	p := c.P
+	fn := c.need(R, "lua", "luaModulo")
+	if fn == nil {
+		return
+	}
+	g := p.G(fn)
+	okc, found := true, false
+	why := ""
+	allInstrs(fn, func(in ssa.Instruction) {
+		b, ok := in.(*ssa.BinOp)
+		if !ok || b.Op != token.ADD || !g.Live(in) {
+			return
+		}
+		found = true
+		conds := g.CondsAtInstr(in)
+		// the adjusting block may be reached from several tests (a || b): look at the tests of its predecessors too
+		var tests []ssa.Value
+		for _, cd := range conds {
+			tests = append(tests, cd.V)
+		}
+		for _, pr := range in.Block().Preds {
+			if iff, ok := pr.Instrs[len(pr.Instrs)-1].(*ssa.If); ok {
+				tests = append(tests, iff.Cond)
+			}
+			for _, cd := range g.CondsAt(pr) {
+				tests = append(tests, cd.V)
+			}
+		}
+		if len(tests) == 0 {
+			okc, why = false, "the adjustment is unconditional"
+		}
+		for _, t := range tests {
+			cmp, ok := t.(*ssa.BinOp)
+			if !ok {
+				continue
+			}
+			for _, side := range []ssa.Value{cmp.X, cmp.Y} {
+				if ar, ok := stripConv(side).(*ssa.BinOp); ok && (ar.Op == token.MUL || ar.Op == token.QUO) {
+					okc, why = false, "the test compares "+shortKey(vkey(ar))+" with zero"
+				}
+			}
+		}
+	})
+	c.check(found && okc, R, "luaModulo:sign-test-direct", p.pos(fn.Pos()), "the remainder and the divisor are compared with zero directly", "the floor adjustment of % is decided from arithmetic on the operands ("+why+"): for tiny operands the product underflows to zero and the result keeps the dividend's sign ((-3*2^-600) % 2^-599 is negative)")
 }
 
 func constFloat(v ssa.Value) (float64, bool) {
